@@ -4,6 +4,8 @@ import (
 	"bytes"
 	"fmt"
 	"sort"
+
+	"verif/ref/reflabel"
 )
 
 // Normalize applies, in place, the representation normalisations that the
@@ -131,6 +133,13 @@ func diffOpt(p string, a, b *Opt, wire bool) (string, string) {
 	if label {
 		if !strsEq(a.Names, b.Names) {
 			return p + "/" + a.Typ + ".names", fmt.Sprintf("%q vs %q", a.Names, b.Names)
+		}
+		// same dotted strings, but are they the same labels? ("first.last" as one label is not "first" + "last")
+		if len(a.B) > 0 && len(b.B) > 0 && a.B[len(a.B)-1] != nil && b.B[len(b.B)-1] != nil {
+			sa, sb := reflabel.Structure(a.B[len(a.B)-1]), reflabel.Structure(b.B[len(b.B)-1])
+			if sa != nil && sb != nil && fmt.Sprintf("%q", sa) != fmt.Sprintf("%q", sb) {
+				return p + "/" + a.Typ + ".labels", fmt.Sprintf("label structure %q vs %q", sa, sb)
+			}
 		}
 	}
 	if !label || wire {
